@@ -238,7 +238,7 @@ def py_observe(aspect, sc, syms):
         dv = None
         for c in cls.__mro__:
             for attr in ('defaultValue', 'defaultHexValue', 'defaultBinValue'):
-                if attr in c.__dict__ and dv is None and c.__module__ != 'pyasn1.type.univ' and not c.__module__.startswith('pysnmp.'):
+                if attr in c.__dict__ and dv is None and not c.__module__.startswith(('pyasn1.', 'pysnmp.')):
                     dv = (attr, c.__dict__[attr])
         if dv:
             attr, v = dv
@@ -374,7 +374,7 @@ def classify(t, f):
                  'plain-type-not-exported' if 'No symbol' in e else 'bits-defval-template' if ('Jinja template' in e and 'BITS' in json.dumps(sc)) else 'other')
         return 'pysnmp;%s' % cause
     if a == 'defval':
-        side = 'json' if (o['json']['defden'] == '-' or not o['json']['defpresent']) else 'py-or-json'
+        side = 'json' if (o['json']['defden'] == '-' or not o['json']['defpresent']) else ('py-missing' if o['py']['defden'] == '-' else 'py-or-json')
         return 'defval;%s;%s;%s' % (sc['notation'], 'int' if BASE_INT(sc['base']) else sc['base'].replace(' ', ''), side)
     if a == 'chain':
         return 'chain;%s;%s' % (o['status'], 'unknown-parents' if 'Unknown parents' in e else 'other')
